@@ -115,7 +115,10 @@ EXPLANATION = (
     "C20.R16 (band conversion behind the decoder): the loop of the renderer that stores back into the decoded list is walked for one "
     "iteration on the statement CFG for every entry 0..1023 x gsm_refer_pcs() in {0, 1}; the entry handed on must be the channel "
     "gsm_arfcn_refer_pcs() of sysinfo.c gives (ARFCN_PCS exactly on the range shared with DCS 1800 in a PCS cell), that range "
-    "cross-checked against arfcn2index() of gsm322.c.")
+    "cross-checked against arfcn2index() of gsm322.c. C20.R11 also decides room: the size of every copy into the LV member, folded over the "
+    "values 0..255 of the source's length octet that the dominating guards admit, stays within the declared extent of the member (9). "
+    "C20.R17 (own cell allocation): a Cell Channel Description of the same channel description decoded on a path to the decoder call must be "
+    "decoded into the object the decoder's first argument designates (objects resolved by scope through clang's declaration ids).")
 ASSUMPTIONS = [
     "clang 14 parses the sliced function exactly as the layer23 build would (prelude models only declarations: stdint.h, EINVAL sign, struct gsm_sysinfo_freq {uint8_t mask;}, FREQ_TYPE_* values and array extents read from sysinfo.h, LOGP reduced to the evaluation of its value arguments)",
     "int is 32 bit: no counter in the function exceeds 2040, so machine arithmetic coincides with integer arithmetic",
@@ -129,6 +132,8 @@ ASSUMPTIONS = [
     "bitmap-derived bounds: the split of the v-octet bitmaps into 'no bit set' and 'bit p is the highest set bit' (p = 0 .. 8v-1) is exhaustive; within a case the bits below p are symbolic, so a local that evaluates to a concrete value in a case has that value for every bitmap of the case; it stands for that value only at statements from which none of its writes can be reached",
     "C20.R8 (witness fold): the interpreter in this module implements the C semantics of the constructs it accepts (integer conversions and arithmetic wrap in the widths of the parse target, signed >> is arithmetic, pointers are (object, offset) pairs that never leave their object unnoticed, a scalar whose address is taken is a one-element object, an unset object holds an indeterminate value that may be copied but not compared, branched on or used as an index); LOGP evaluates its value arguments and does nothing else; agreement on the witnesses is evidence for a decoder whose shape the structural rules do not recognise, not a proof for all inputs (the evidence records the structural proof as open)",
     "C20.R11 (LV copies): every struct gsm48_rr_cd whose mob_alloc_lv is filled by a copy is rendered by gsm48_rr_render_ma afterwards (cd_now, cd_before, cd_after are), and the member does not already hold the bitmap that is copied; octet 0 of the source is the length of the LV that was received; nothing between a guard on that octet and the copy changes the source (callees, logging macros); a member reached through a synthesised inner struct (`rr->cd_now.mob_alloc_lv`) is the member of that name of struct gsm48_rr_cd",
+    "C20.R11 (room) / C20.R17: TLVP_LEN() of a TLV element is the octet in front of its TLVP_VAL(); an LV member that is copied from holds an LV "
+    "that fits it; a local table of a caller and what a pointer variable of that caller designates are different objects",
     "C20.R12 (result use): the results the witness fold C20.R8 obtains (return value per refusal / empty / non-empty list) are the results the callers see (same definition of the decoder); a caller's condition over the result is evaluated in the integers after conversion to the type of the local that holds it, conditions compared after an unsigned conversion or mixed with other values are left undecided (both ways kept); a local list the decoder fills is handed on only by statements that name it",
     "C20.R13 (pairing): a function of gsm48_rr.c that is handed the list and a struct gsm48_rr_cd * sends the list to L1 with the hopping parameters (MAIO, HSN) of that description (gsm48_rr_activate_channel, gsm48_rr_channel_after_time do); callees other than the renderers do not write the caller's list or length; different member paths of one pointer variable that is written once are different objects; the contents of a description are not changed between its render call and the consumer (not decided)",
     "C20.R9 (re-run conditions): a condition the SI4 parser tests before any store, copy or call of a function of sysinfo.c sees the object as the caller left it; a local array of the caller that no other statement names holds what its one whole copy put there; a compare length within the copied octets compares only those; functions outside sysinfo.c (logging) called in between write neither side",
@@ -529,11 +534,17 @@ class Buffers:
             return [{"file": cf.rel, "func": name, "decl": "%s %s[%s]" % (typ, e, d.group(2).strip()),
                      "type": typ, "extent": val, "line": cf.line(dp)}]
         # local pointer with initialiser
+        # (innermost declaration in scope; declarations of the same name in other blocks are other variables, a plain
+        # assignment to the name anywhere in the function is not followed)
+        best = None
         for d in re.finditer(r"\*\s*%s\s*=\s*([^;,]+)[;,]" % re.escape(e), cf.clean[b0:pos]):
             if cf.in_scope(fi, b0 + d.start(), pos):
-                if len(re.findall(r"\b%s\s*=[^=]" % re.escape(e), cf.clean[b0:b1])) != 1:
-                    raise AnalysisError("pointer `%s` in %s() is assigned more than once" % (e, name))
-                return self.resolve(cf, fi, d.group(1), pos, depth + 1)
+                best = d
+        if best is not None:
+            ndecl = len(re.findall(r"\*\s*%s\s*=[^=]" % re.escape(e), cf.clean[b0:b1]))
+            if len(re.findall(r"\b%s\s*=[^=]" % re.escape(e), cf.clean[b0:b1])) != ndecl:
+                raise AnalysisError("pointer `%s` in %s() is assigned more than once" % (e, name))
+            return self.resolve(cf, fi, best.group(1), pos, depth + 1)
         # pointer parameter -> all callers in this file
         plist = split_args(params)
         idx = None
@@ -5505,7 +5516,41 @@ def sizeof_ok(fm, e):
     return True
 
 
-def octet_atoms(fm, fname, n, xt, what):
+def tlv_length_alias(fm, n, sp):
+    """Terms that denote the same octet as the length octet of the copied LV.  A source `p + k` whose pointer p is a
+    local with exactly one reaching definition `p = TLVP_VAL(dec, ie) + j` (j + k == -1: the octet in front of the
+    value of information element `ie`) reads the length octet tlv_parse() stored as TLVP_LEN(dec, ie) for a TLV
+    element (trusted: libosmocore's parser; recorded as an assumption).  -> {term: True}"""
+    base, off = sp
+    nm = base.get("referencedDecl", {}).get("name") if kind(base) == "DeclRefExpr" else None
+    if nm is None or nm not in fm.locals or nm in fm.addr:
+        return {}
+    defs = fm.reaching_defs(nm, n)          # by name: a write to any local of that name counts
+    if len(defs) != 1 or defs[0] == "undef" or defs[0].how != "init" or defs[0].val is None or \
+            defs[0].ast.get("id") != base.get("referencedDecl", {}).get("id"):
+        return {}                           # (the initialiser of the very declaration the source refers to)
+    try:
+        t = fm.lower(defs[0].val)
+    except AnalysisError:
+        return {}
+    terms = t[1:] if t[0] == "+" else (t,)
+    calls = [x for x in terms if not X.is_c(x)]
+    k = sum(x[1] for x in terms if X.is_c(x))
+    if len(calls) != 1 or calls[0][0] != "call" or calls[0][1] != "TLVP_VAL" or len(calls[0]) != 4 or k + off != -1:
+        return {}
+    # the decoded table is not rewritten between the definition and the copy by a second run of the parser
+    return {("call", "TLVP_LEN") + tuple(calls[0][2:]): True}
+
+
+def _replace(t, m, by):
+    if t in m:
+        return by
+    if t[0] in ("c", "v"):
+        return t
+    return tuple(_replace(x, m, by) if isinstance(x, tuple) else x for x in t)
+
+
+def octet_atoms(fm, fname, n, xt, what, alias=None):
     """Guard atoms dominating `n` that constrain the octet `xt`: the atoms over `xt` alone and, transitively, the atoms
     that relate it to other values (`remaining < len + 2`) with the atoms over those.  -> ([(term, pol)], other leaves,
     exact): exact is False when an atom of that component cannot be folded (it is left out, so the admitted set can
@@ -5519,6 +5564,8 @@ def octet_atoms(fm, fname, n, xt, what):
         if t2 != t:
             t, p = fm.norm_term(t2, p)
             t = canon_mem(t)
+        if alias:
+            t = _replace(t, alias, xt)
         ats.append((t, p, a, leaves(t)))
     comp, grown = {xt}, True
     while grown:
@@ -5544,13 +5591,13 @@ def octet_atoms(fm, fname, n, xt, what):
     return out, sorted(comp - {xt}), exact
 
 
-def admits(use, extra, xt, v):
+def admits(use, extra, xt, v, top=0):
     """some assignment of the other leaves satisfies all atoms together with octet value v.  Folded in the integers,
     which is what C computes as long as no compared operand is negative (an unsigned conversion would change a
     negative one): assignments with a negative operand are not counted."""
     if len(extra) > 2:
         raise AnalysisError("guards relate the length octet to %d other values (at most 2 are folded)" % len(extra))
-    cs = {MAXLEN + 1}
+    cs = {MAXLEN + 1, top}
     for (t, p) in use:
         consts_of(t, cs)
     C = 3 * max(cs) + 20
@@ -5595,7 +5642,7 @@ def r11_lv_copies(L, tier):
     H = HeaderIndex(L)
     fields = lv_fields(L, H, hdr, tier)
     L.floor(R, "struct members handed to %s in LV form (gsm48_rr_cd.mob_alloc_lv)" % FN, len(fields), 1)
-    ncopies = 0
+    ncopies = nroom = 0
     for (S, M) in sorted(fields):
         rels = caller_files(L, tier)
         if tier == "thorough":
@@ -5615,8 +5662,10 @@ def r11_lv_copies(L, tier):
             for fname in fnames:
                 # one group per function: a copy that cannot be classified in one does not hide a wrong one in another
                 k = L.stage(r11_function, L, R, H, hdr, rel, fname, S, M, fields[(S, M)])
-                ncopies += 0 if k is STAGE_FAILED else k
+                ncopies += 0 if k is STAGE_FAILED else k[0]
+                nroom += 0 if k is STAGE_FAILED else k[1]
     L.floor(R, "copies that construct a Mobile Allocation LV buffer of the decoder's callers", ncopies, 3)
+    L.floor(R, "copies into a Mobile Allocation LV buffer whose size was compared with the declared extent of the member", nroom, 3)
     L.assume("C20.R11: between a guard on an LV's length octet and the copy of that LV no callee / logging macro modifies the "
              "source buffer; an LV source holds 1 + L readable octets (the parsers that produce it are outside this rule)")
 
@@ -5629,11 +5678,11 @@ def r11_function(L, R, H, hdr, rel, fname, S, M, site):
             continue
         if not any(kind(x) == "MemberExpr" and x.get("name") == M for x in walk(kids(c)[1])):
             continue
-        k += r11_copy(L, R, fm, rel, fname, n, c, S, M, site, seen)
-    return k
+        k += r11_copy(L, R, fm, rel, fname, n, c, S, M, site, seen, H)
+    return (k, seen.get("#room", 0))
 
 
-def r11_copy(L, R, fm, rel, fname, n, c, S, M, site, seen):
+def r11_copy(L, R, fm, rel, fname, n, c, S, M, site, seen, H=None):
     args = kids(c)[1:]
     cal = ctext(kids(c)[0])
     dp = field_ptr(fm, args[0])
@@ -5656,7 +5705,7 @@ def r11_copy(L, R, fm, rel, fname, n, c, S, M, site, seen):
     so = strip(kids(se)[0]) if kind(se) == "UnaryOperator" and se.get("opcode") == "&" else None
     if so is not None and kind(so) in ("MemberExpr", "DeclRefExpr") and "[" not in qt_of(so):
         xt = canon_mem(fm.lower(so))            # `&msg->len`: the LV starts at that octet
-        sobj, xq = so, qt_of(so)
+        sobj, xq, sp = so, qt_of(so), None
     else:
         sp = field_ptr(fm, se)
         if sp is None or sp[1] < 0:
@@ -5678,7 +5727,14 @@ def r11_copy(L, R, fm, rel, fname, n, c, S, M, site, seen):
     if leaves(nt) - {xt}:
         raise AnalysisError("%s(): size `%s` of the copy into `%s` is not a function of the source's length octet `%s` alone" % (
             fname, ctext(args[2])[:50], ctext(dst), X.show(xt)))
-    use, extra, exact = octet_atoms(fm, fname, n, xt, "the length octet")
+    alias = tlv_length_alias(fm, n, sp) if sp is not None else {}
+    if alias:
+        L.assume("C20.R11: for a TLV information element tlv_parse() stores as TLVP_LEN() the octet in front of TLVP_VAL() "
+                 "(libosmocore's parser, outside the tree analysed here)")
+    use, extra, exact = octet_atoms(fm, fname, n, xt, "the length octet", alias)
+    same_kind = kind(sobj) == "MemberExpr" and sobj.get("name") == M and struct_of(strip(kids(sobj)[0])) in (None, S) and \
+        sp is not None and sp[1] == 0
+    r11_room(L, R, H, fm, rel, fname, n, c, S, M, dst, owner, xt, nt, use, extra, exact, seen, same_kind)
     bad, admitted = None, []
     for x in range(1, MAXLEN + 1):
         if not admits(use, extra, xt, x):
@@ -5708,6 +5764,95 @@ def r11_copy(L, R, fm, rel, fname, n, c, S, M, site, seen):
          "bitmap octets the decoder reads are copied" % (ctext(dst), ctext(args[1]), " (#%d)" % k if k > 1 else "", site, FN),
          "size >= 1 + L for every admitted L in 1..%d" % MAXLEN, found, bad is None, fm.line(c))
     return 1
+
+
+def member_extent(fm, H, S, M, dst, owner):
+    """declared number of octets of the LV member `dst` (member M of struct S) | None.  From the member's array type
+    when the struct declaration in the slice was read from the tree; for `p->f.M` behind a synthesised inner struct
+    from the headers: p's struct (read from the tree) declares `struct S f`, and struct S declares `octet M[N]`."""
+    real = fm.real_structs.get(owner or "")
+    m = re.fullmatch(r"(.+?)\s*\[(\d+)\]", qt_of(dst))
+    if owner == S and real is not None and M in real[1] and m and _SIZE1.fullmatch(m.group(1).strip()) and \
+            SCALAR.fullmatch(" ".join(real[1][M][0].split())):
+        return int(m.group(2))
+    inner = strip(kids(dst)[0])
+    if owner is not None or H is None or kind(inner) != "MemberExpr":
+        return None
+    P = struct_of(strip(kids(inner)[0]))
+    hp = H.struct(P) if P is not None and P in fm.real_structs else None
+    f = hp[1].get(inner.get("name")) if hp else None
+    hs = H.struct(S) if f is not None and " ".join(f[0].split()) == "struct %s" % S and f[1] is None else None
+    d = hs[1].get(M) if hs else None
+    if d is None or _SIZE1.fullmatch(" ".join(d[0].split())) is None or d[1] is None:
+        return None
+    try:
+        return c_fold(d[1], dict(hs[3]))
+    except AnalysisError:
+        return None
+
+
+def r11_room(L, R, H, fm, rel, fname, n, c, S, M, dst, owner, xt, nt, use, extra, exact, seen, same_kind=False):
+    """C20.R11 (room) -- caller half of the clauses "longer bitmaps are rejected with an error" and "no bitmap makes the
+    decoder read or write outside its buffers".  The LV member M the decoder is fed from has a fixed extent (uint8_t
+    mob_alloc_lv[9]: length octet + 8 bitmap octets); a copy into it writes `size` octets, where size is the function of
+    the source's length octet folded above.  For EVERY value 0..255 of that octet which the guard atoms dominating the
+    copy admit, size <= extent of M must hold: otherwise the copy writes behind M (into the neighbouring member) and M[0]
+    holds a length > 8 whose bitmap the decoder is then handed.  The comparison is between the folded size and the
+    declared extent, whatever quantity the guard is written over (`*lv + 1 > sizeof`, `*lv >= sizeof`, a TLVP_LEN of the
+    same element): a guard that bounds the value length by the extent admits L = extent, whose copy is extent + 1
+    octets.  The extent is taken from the member declaration read from the tree (member_extent); when it cannot be
+    read no room obligation is formed for the copy (the floor counts the formed ones)."""
+    args = kids(c)[1:]
+    cap = member_extent(fm, H, S, M, dst, owner)
+    if cap is None:
+        return
+    alone = [(t, p) for (t, p) in use if leaves(t) <= {xt}]
+    bad, over, budget = None, 0, 6
+    top = 256
+    if same_kind:
+        # the source is itself member M of a struct S: by induction over the writers of such members (each subject to
+        # this obligation: the octets written, length octet first, fit the member) its length octet is < extent
+        top = cap
+        L.assume("C20.R11: a %s.%s that is copied from holds an LV that fits it (length octet < %d): every copy into such a member "
+                 "is subject to the room obligation, other stores into it are outside the rule" % (S, M, cap))
+    for x in range(0, top):
+        try:
+            sz = ev(subst(nt, {xt: x}), {})
+        except Unknown as u:
+            raise AnalysisError("%s(): size `%s` cannot be folded (%s)" % (fname, ctext(args[2])[:50], u))
+        if sz <= cap:
+            continue
+        over += 1
+        try:
+            if any(bool(ev(subst(t, {xt: x}), {})) != p for (t, p) in alone):
+                continue
+        except Unknown as u:
+            raise AnalysisError("%s(): guard on the length octet cannot be folded (%s)" % (fname, u))
+        if len(extra) >= 2:
+            budget -= 1
+            if budget < 0:
+                raise AnalysisError("%s(): the guards of the copy into `%s` bound the length octet only through %d other values: "
+                                    "not folded for every length" % (fname, ctext(dst), len(extra)))
+        if admits(use, extra, xt, x, top=x):
+            bad = (x, sz)
+            break
+    if bad is not None and not exact:
+        raise AnalysisError("%s(): size `%s` of the copy into `%s` is %d for L = %d, but a guard on the length octet could not be folded: "
+                            "whether that length reaches the copy is open" % (fname, ctext(args[2])[:50], ctext(dst), bad[1], bad[0]))
+    key = (ctext(dst), ctext(args[1]), "room")
+    k = seen[key] = seen.get(key, 0) + 1
+    gtxt = " && ".join(sorted({("%s" if p else "!(%s)") % X.show(t) for (t, p) in use})) or "none"
+    if bad is None:
+        found = "size `%s` <= %d for every admitted value of the length octet (%d of the values 0..%d would need more; guards: %s)" % (
+            stmt_text(args[2]), cap, over, top - 1, gtxt)
+    else:
+        found = "length octet %d passes the guards (%s) and size `%s` is %d: %d octet%s written behind `%s`, which then holds a " \
+                "length of %d (> %d bitmap octets) for the decoder" % (
+                    bad[0], gtxt, stmt_text(args[2]), bad[1], bad[1] - cap, "" if bad[1] - cap == 1 else "s", ctext(dst), bad[0], cap - 1)
+    L.ob(R, rel, fname, "copy of a Mobile Allocation LV into `%s` from `%s`%s: the copied octets (length octet + value) fit the %d octets "
+         "of the member for every length the guards admit" % (ctext(dst), ctext(args[1]), " (#%d)" % k if k > 1 else "", cap),
+         "size <= %d for every admitted length octet 0..255" % cap, found, bad is None, fm.line(c))
+    seen["#room"] = seen.get("#room", 0) + 1
 
 
 # ========================================== callers: what is done with the result
@@ -6322,6 +6467,218 @@ def r13_consumer(L, R, cf, fm, fname, rend, sites, n, c, used, seen_keys):
              bad[0], fmt_obj(bad[1][2]), _callee(bad[1][1]), fm.line(bad[1][1]), gtxt),
          bad is None, fm.line(c))
     return 1
+
+
+# ========================================== callers: the cell allocation the message carries is the one decoded against
+
+def _decl_id(e):
+    return e.get("referencedDecl", {}).get("id") if e is not None and kind(e) == "DeclRefExpr" else None
+
+
+def _writes_of(fm, name, did):
+    """writes to the variable DECLARED as `did` (names are shared by shadowing block-locals; clang's declaration id
+    tells them apart)"""
+    out = []
+    for w in fm.writes.get(name, []):
+        wid = w.ast.get("id") if w.how == "init" else _decl_id(strip(kids(w.ast)[0]))
+        if wid == did:
+            out.append(w)
+    return out
+
+
+def scoped_defs(fm, name, did, at):
+    """definitions of the variable declared as `did` that reach CFG node `at` ('undef': the entry does)"""
+    wn = {}
+    for w in _writes_of(fm, name, did):
+        wn.setdefault(w.node.id, []).append(w)
+    out, seen, work = [], set(), [p for (p, _) in at.pred]
+    while work:
+        x = work.pop()
+        if x.id in seen:
+            continue
+        seen.add(x.id)
+        if x.id in wn:
+            out += wn[x.id]
+            continue
+        if x is fm.g.entry:
+            out.append("undef")
+            continue
+        work += [p for (p, _) in x.pred]
+    return out
+
+
+def _is_array(fm, e):
+    """the lvalue is an array (decays to the address of the object): by its type, or -- for a member whose declaration
+    the slice synthesised with a made-up type -- by the member declaration in the headers of the tree (fm.headers)"""
+    if kind(e) not in ("MemberExpr", "DeclRefExpr"):
+        return False
+    if "[" in qt_of(e):
+        return True
+    H = getattr(fm, "headers", None)
+    owner = struct_of(strip(kids(e)[0])) if kind(e) == "MemberExpr" else None
+    if H is None or owner is None or owner not in fm.real_structs:
+        return False
+    hs = H.struct(owner)
+    d = hs[1].get(e.get("name")) if hs else None
+    return d is not None and d[1] is not None and "*" not in d[0]
+
+
+def scoped_pointer(fm, e, at, depth=0):
+    """Object a pointer expression designates at CFG node `at`, names resolved by SCOPE: (base, member path) with base
+    "name#declid" for a local array / structure of the function and "*name#declid" for what a pointer variable that
+    keeps one value designates (parameter never written; local whose only write is its definition and whose value is
+    read from memory or returned by a call).  Local pointers holding an address are followed to their one reaching
+    definition.  AnalysisError when the expression is not such a path."""
+    e = strip(e, casts=True)
+    if kind(e) == "UnaryOperator" and e.get("opcode") == "&":
+        return scoped_object(fm, kids(e)[0], at, depth)
+    if _is_array(fm, e):
+        return scoped_object(fm, e, at, depth)
+    if kind(e) == "DeclRefExpr" and depth < 5:
+        rd = e.get("referencedDecl", {})
+        v, did = rd.get("name"), rd.get("id")
+        if v in fm.addr:
+            raise AnalysisError("the address of pointer `%s` is taken: its value is not followed" % v)
+        ws = _writes_of(fm, v, did)
+        if rd.get("kind") == "ParmVarDecl":
+            if ws:
+                raise AnalysisError("pointer parameter `%s` is written" % v)
+            return ("*%s#%s" % (v, did), ())
+        defs = scoped_defs(fm, v, did, at)
+        if len(defs) == 1 and defs[0] != "undef" and defs[0].how in ("init", "assign") and defs[0].val is not None:
+            val = strip(defs[0].val, casts=True)
+            addr = (kind(val) == "UnaryOperator" and val.get("opcode") == "&") or kind(val) == "DeclRefExpr" or _is_array(fm, val)
+            if addr:
+                return scoped_pointer(fm, val, defs[0].node, depth + 1)
+            if len(ws) == 1:
+                return ("*%s#%s" % (v, did), ())
+    raise AnalysisError("pointer `%s` cannot be resolved to one object" % ctext(e)[:50])
+
+
+def scoped_object(fm, e, at, depth=0):
+    e = strip(e, casts=True)
+    k = kind(e)
+    if k == "MemberExpr":
+        inner = kids(e)[0]
+        b, p = scoped_pointer(fm, inner, at, depth) if e.get("isArrow") else scoped_object(fm, inner, at, depth)
+        return (b, p + (e.get("name"),))
+    if k == "UnaryOperator" and e.get("opcode") == "*":
+        return scoped_pointer(fm, kids(e)[0], at, depth)
+    if k == "ArraySubscriptExpr" and fm.tu.fold(kids(e)[1]) == 0 and "[" in qt_of(strip(kids(e)[0])):
+        return scoped_object(fm, kids(e)[0], at, depth)
+    if k == "DeclRefExpr" and e.get("referencedDecl", {}).get("kind") == "VarDecl" and "*" not in qt_of(e).split("[")[0]:
+        rd = e["referencedDecl"]
+        return ("%s#%s" % (rd.get("name"), rd.get("id")), ())
+    raise AnalysisError("`%s` is not a member path of a local object or of what a pointer designates" % ctext(e)[:50])
+
+
+def fmt_scoped(fm, o):
+    """readable form of a scoped object: declaration ids replaced by the line of the declaration when a name is shared"""
+    base, path = o
+    star = base.startswith("*")
+    nm, did = base.lstrip("*").split("#")
+    if nm in fm.dups:
+        d = [x for x in walk(fm.f) if x.get("id") == did and kind(x) in ("VarDecl", "ParmVarDecl")]
+        nm = "%s (the one declared at line %s)" % (nm, fm.line(d[0])) if d else nm
+    return (nm + ("->" if star else ".") + ".".join(path)) if path else (("*" if star else "") + nm)
+
+
+def _pointee(fm, e):
+    """struct name an argument expression points to / is an array of (None: not a structure pointer); for an array
+    member the slice declares with a made-up type, from the member declaration in the headers of the tree"""
+    e = strip(e, casts=True)
+    m = re.fullmatch(r"(?:const\s+)?struct (\w+)\s*(?:\*|\[\d*\])", " ".join(qt_of(e).split()))
+    if m is None and kind(e) == "MemberExpr" and "[" not in qt_of(e) and _is_array(fm, e):
+        d = fm.headers.struct(struct_of(strip(kids(e)[0])))[1][e.get("name")]
+        m = re.fullmatch(r"(?:const\s+)?struct (\w+)(\s*\*)?", " ".join(d[0].split()) + " *")
+    return m.group(1) if m else None
+
+
+def r17_own_allocation(L, tier):
+    """C20.R17 -- caller half of the clause "the decoded hopping list contains exactly the cell-allocation channels whose
+    bit is set ... never a channel outside the cell allocation", at the callers that read the bitmap from a channel
+    description structure (assignment / handover / frequency redefinition).  The decoder applies the bitmap to the
+    table it is handed as first argument.  When, on a path to the decoder call, the function has another call decode a
+    further member of THE SAME description object (the Cell Channel Description the message carries: `cd->cell_desc_lv`
+    next to `cd->mob_alloc_lv`) into a table of the decoder's table type, the bits of the Mobile Allocation index that
+    cell allocation: the table written there must be the object the decoder reads.  Both table arguments are resolved to
+    objects by scope (clang's declaration ids: a block-local declaration that shadows an outer pointer is another
+    variable; local pointers are followed to their one reaching definition).  Same object: holds.  Provably different
+    objects (a local array of the function against anything else, different member paths of one base): the bitmap is
+    applied to another cell allocation than the one decoded for it -- violation.  Anything else (two pointers of
+    unknown relation, an unresolvable argument) is not classified."""
+    R = "C20.R17"
+    with open(L.unit(F_HDR), "r", encoding="utf-8", errors="surrogateescape") as f:
+        hdr = blank_strings(strip_comments(f.read()))
+    H = HeaderIndex(L)
+    npairs = 0
+    for rel in caller_files(L, tier):
+        cf = CFile(L, rel)
+        for fname in sorted({fi[0] for (fi, pos, args) in cf.calls(FN)}):
+            k = L.stage(r17_function, L, R, H, hdr, rel, fname)
+            npairs += 0 if k is STAGE_FAILED else k
+    L.floor(R, "decodings of a Cell Channel Description on the way to a call of %s paired with the table that call reads" % FN, npairs, 1)
+    L.assume("C20.R17: a callee does not store the address of a caller's local table into the structures other pointers of "
+             "that caller are read from (a local array and what a pointer variable designates are different objects)")
+
+
+def _desc_member(fm, e, at):
+    """(description object, member name) when the pointer argument points into an octet-array member of a structure"""
+    sp = field_ptr(fm, e)
+    if sp is None or kind(sp[0]) != "MemberExpr" or "[" not in qt_of(sp[0]):
+        return None
+    try:
+        b, p = scoped_object(fm, sp[0], at)
+    except AnalysisError:
+        return None
+    return ((b, p[:-1]), p[-1])
+
+
+def r17_function(L, R, H, hdr, rel, fname):
+    fm = slice_of(L, H, rel, fname, hdr)
+    fm.headers = H
+    n_ob, seen = 0, {}
+    for (n, c) in fm.calls:
+        if _callee(c) != FN or len(kids(c)) != 7:
+            continue
+        args = kids(c)[1:]
+        bm = _desc_member(fm, args[1], n)
+        tt = _pointee(fm, args[0])
+        if bm is None or tt is None:
+            continue                            # the bitmap is not a member of a description structure (SI 4: message octets)
+        for (dn, d) in fm.calls:
+            if d is c or _callee(d) in (None, FN) or n.id not in fm.reach_succ(dn) or dn is n:
+                continue
+            dargs = kids(d)[1:]
+            tabs = [a for a in dargs if _pointee(fm, a) == tt]
+            srcs = [m for m in (_desc_member(fm, a, dn) for a in dargs if _pointee(fm, a) is None) if m is not None]
+            srcs = [m for m in srcs if m[0] == bm[0] and m[1] != bm[1]]
+            if not tabs or not srcs:
+                continue
+            if len(tabs) != 1 or len({m[1] for m in srcs}) != 1:
+                raise AnalysisError("%s(): %s() is handed several tables / description members on the way to %s()" % (fname, _callee(d), FN))
+            try:
+                into = scoped_pointer(fm, tabs[0], dn)
+                read = scoped_pointer(fm, args[0], n)
+            except AnalysisError as e:
+                raise AnalysisError("%s(): table of %s() / %s(): %s" % (fname, _callee(d), FN, e))
+            diff = False if into == read else objects_differ(into, read)
+            if diff is None:
+                raise AnalysisError("%s(): %s() decodes `%s` into `%s`, %s() reads `%s`: whether these are the same table is open" % (
+                    fname, _callee(d), srcs[0][1], fmt_scoped(fm, into), FN, fmt_scoped(fm, read)))
+            mem = srcs[0][1]
+            key = "%s() decodes member `%s` of the description whose `%s` %s() is handed in %s()" % (_callee(d), mem, bm[1], FN, fname)
+            seen[key] = seen.get(key, 0) + 1
+            if seen[key] > 1:
+                key += " (#%d)" % seen[key]
+            key += ": the table it fills is the cell allocation the bitmap is decoded against"
+            L.ob(R, rel, fname, key, "first argument of %s() designates the table `%s` was decoded into" % (FN, mem),
+                 "both are `%s`" % fmt_scoped(fm, read) if not diff else
+                 "`%s` is decoded into `%s`, but %s() reads `%s`: the bits of the Mobile Allocation select channels of another cell "
+                 "allocation than the one the message carries" % (mem, fmt_scoped(fm, into), FN, fmt_scoped(fm, read)),
+                 not diff, fm.line(c))
+            n_ob += 1
+    return n_ob
 
 
 # ========================================== callers: the received bitmap is the one that is rendered
@@ -7964,3 +8321,4 @@ def run(L, tier):
     L.stage(r13_pairing, L, tier)       # callers: the list handed to L1 was rendered from the description handed along
     L.stage(r14_received, L, tier)      # callers: the bitmap received for a description is the one rendered from it
     L.stage(r16_band, L, tier)          # callers: the band conversion behind the decoder keeps every entry a cell-allocation channel
+    L.stage(r17_own_allocation, L, tier)    # callers: a Cell Channel Description of the message is decoded into the table the decoder reads
